@@ -246,7 +246,7 @@ func runC16(c *Ctx) {
 	c.ParallelFor(int64(len(calls)), func(w *Worker, i int64) {
 		c16check(w, calls[i], newRng(c.Seed, 0xc16a, uint64(i)), i)
 	})
-	n := c.pick(150000, 6000000)
+	n := c.pick(500000, 6000000)
 	c.ParallelFor(n, func(w *Worker, i int64) {
 		r := newRng(c.Seed, 0xc16, uint64(i))
 		c16check(w, randCall(r, o), r, i)
